@@ -126,12 +126,12 @@ def run(ctx, args):
         keep = set(id(x) for x in random.Random(ctx.seed).sample(three, len(three) // 3))
         famprogs = [x for x in famprogs if x not in three or id(x) in keep]
     if not quick:
-        # all sequences of length 4 would be 38 416 more programs x 2 levels x 3 inputs: a seeded sample of 5 000 of them
+        # all sequences of length 4 would be 38 416 more programs x 2 levels x 3 inputs: a seeded sample of 1 500 of them
         import random
         four = [x for x in optfamily.programs(4) if len(x[0].split("-")) == 4]
-        famprogs += random.Random(ctx.seed).sample(four, 5000)
+        famprogs += random.Random(ctx.seed).sample(four, 1500)
     fam = [(name, prog, [({"a": A.enc(a, A.INT)}, {"g": A.enc(2, A.INT)}) for a in optfamily.INPUTS]) for name, prog in famprogs]
-    n = 300 if quick else 4000
+    n = 300 if quick else 1500
     gen = []
     for i in range(n):
         g = nslgen.Gen(ctx.seed * 1000003 + i, FEATS[i % 3])
@@ -298,7 +298,7 @@ def run(ctx, args):
         raise common.Machinery("vacuous run: the optimiser changed no program")
     return common.finish(
         ctx, level="model_checking", evaluations=len(cases) * 2, distinct_nontrivial=nontrivial,
-        rule=f"{len(fam)} optimiser-family programs (all sequences of <= {'2' if quick else '3'} of {len(optfamily.TEMPLATES)} statement templates{' and a seeded third of the sequences of length 3' if quick else ' and a seeded sample of 5000 sequences of length 4'}, copy chains, and all sequences of <= 3 over a second alphabet of {len(optfamily.TEMPLATES2)} templates: aggregate copies followed by literal element stores, sibling blocks re-declaring a name) x 3 inputs and {n} seeded programs x 3 inputs; "
+        rule=f"{len(fam)} optimiser-family programs (all sequences of <= {'2' if quick else '3'} of {len(optfamily.TEMPLATES)} statement templates{' and a seeded third of the sequences of length 3' if quick else ' and a seeded sample of 1500 sequences of length 4'}, copy chains, and all sequences of <= 3 over a second alphabet of {len(optfamily.TEMPLATES2)} templates: aggregate copies followed by literal element stores, sibling blocks re-declaring a name) x 3 inputs and {n} seeded programs x 3 inputs; "
              "each compiled with optimize False and True: accept/reject compared, both modules run on the VM (value, globals, failures compared), both compared "
              "with NslSem's prescription (TLC), both IR modules checked by IRWellFormed over all paths; "
              f"{irm['cases']} runs of optimised modules ({irm['events']} instruction events) validated against spec/IRMachine.tla, and the same programs executed by IRMachine itself at both levels "
